@@ -153,7 +153,7 @@ class Harness:
                 "history": [list(a) for a in hist]}
 
 
-def surrogate_case(cid: str, seed: int, budget: int, warm: int) -> dict:
+def surrogate_case(cid: str, seed: int, budget: int, warm: int, fancy: bool = False) -> dict:
     """Run the real SurrogateOptimizer on a shrunken bundled system and record what it does to its objective."""
     from moptipy.algorithms.so.vector.cmaes_lib import BiPopCMAES
     from moptipy.api.execution import Execution
@@ -163,9 +163,12 @@ def surrogate_case(cid: str, seed: int, budget: int, warm: int) -> dict:
     from moptipyapps.dynamic_control.system import System
     from moptipyapps.dynamic_control.system_model import SystemModel
     from moptipyapps.dynamic_control.systems.stuart_landau import STUART_LANDAU_4 as o
-    sysm = System(o.name, o.state_dims, o.control_dims, o.state_dim_mod, o.state_dims_in_j, o.gamma,
-                  o.test_starting_states, o.training_starting_states, 10, 10.0, 24, 8.0, o.plot_examples)
-    sysm.equations = o.equations      # type: ignore
+    def pristine():
+        sy = System(o.name, o.state_dims, o.control_dims, o.state_dim_mod, o.state_dims_in_j, o.gamma,
+                    o.test_starting_states, o.training_starting_states, 10, 2.0, 12, 2.0, o.plot_examples)
+        sy.equations = o.equations      # type: ignore
+        return sy
+    sysm = pristine()
     inst = SystemModel(sysm, make_ann(2, 1, [2]), make_ann(3, 2, [2]))
     obj = FigureOfMeritLE(inst, True)
     base = obj.__class__
@@ -182,7 +185,8 @@ def surrogate_case(cid: str, seed: int, budget: int, warm: int) -> dict:
         def f(self, *a, **k):
             r = orig(self, *a, **k)
             sc, df = rows_of(self)
-            events.append({"a": tag, "v": f64(float(r)) if tag == "eval" else f64(0.0), "sc": sc, "df": df})
+            events.append({"a": tag, "v": f64(float(r)) if tag == "eval" else f64(0.0), "sc": sc, "df": df,
+                           "_x": np.array(a[0], dtype=float).copy() if tag == "eval" else None})
             return r
         return f
     obj.__class__ = type(base.__name__, (base,), {
@@ -190,27 +194,53 @@ def surrogate_case(cid: str, seed: int, budget: int, warm: int) -> dict:
         "set_raw": wrap("set_raw", "raw"), "set_model": wrap("set_model", "model"),
         "get_differentials": wrap("get_differentials", "diff")})
     space = inst.controller.parameter_space()
-    algo = SurrogateOptimizer(inst, space, obj, warm, 24, None, 24, None, False,
+    algo = SurrogateOptimizer(inst, space, obj, warm, 10, None, 8, None, fancy,
                               model_training_algorithm=lambda v: BiPopCMAES(v),
                               controller_training_algorithm=lambda v: BiPopCMAES(v))
     ex = Execution().set_solution_space(space).set_objective(obj).set_algorithm(algo) \
         .set_max_fes(budget).set_rand_seed(seed)
+    logdir = None
+    if fancy:
+        logdir = tlc.work_dir("sur")
+        ex.set_log_file(str(logdir / "run.txt"))
     with np.errstate(all="ignore"):
         with ex.execute() as proc:
             fes = int(proc.get_consumed_fes())
             n_before = sum(1 for e in events if e["a"] == "eval")
+    if logdir is not None:
+        import shutil
+        shutil.rmtree(logdir, ignore_errors=True)
     # everything recorded until the process was closed; evaluations made while closing (log writing) are "extra"
+    # every real-system value is compared with a fresh objective on a PRISTINE copy of the system
+    fresh_inst = SystemModel(pristine(), inst.controller, inst.model)
     raw_evals = 0
     mode = "raw"
     for e in events:
+        xx = e.pop("_x", None)
+        e["fresh"] = f64(0.0)
+        e["has_fresh"] = 0
         if e["a"] in ("init", "raw"):
             mode = "raw"
         elif e["a"] == "model":
             mode = "model"
         elif e["a"] == "eval" and mode == "raw":
             raw_evals += 1
-    return {"id": cid, "steps": events, "fes": small(fes), "budget": budget, "extra": small(max(0, raw_evals - fes))
-            if raw_evals - fes in (0, 1) else 0, "n_events": len(events)}
+            fo = FigureOfMeritLE(fresh_inst, False)
+            with np.errstate(all="ignore"):
+                e["fresh"] = f64(float(fo.evaluate(xx)))
+            e["has_fresh"] = 1
+    # after the run: the objective must still measure the real system
+    probe = np.array([0.25, -0.5, 0.125, 0.5, -0.25, 0.75, 0.1, -0.3, 0.2][: space.dimension] +
+                     [0.0] * max(0, space.dimension - 9))
+    with np.errstate(all="ignore"):
+        after = float(base.evaluate(obj, probe))
+        want = float(FigureOfMeritLE(fresh_inst, False).evaluate(probe))
+    sc, df = rows_of(obj)
+    events.append({"a": "eval", "v": f64(after), "sc": sc, "df": df, "fresh": f64(want), "has_fresh": 1})
+    raw_evals += 1
+    extra = raw_evals - fes          # the probe (1) plus at most one re-evaluation of the best when closing
+    return {"id": cid, "steps": events, "fes": small(fes), "budget": budget,
+            "extra": small(extra) if extra in (1, 2) else 0, "n_events": len(events), "fancy_logs": fancy}
 
 
 def find_bad2(inst) -> list:
@@ -310,9 +340,50 @@ def run(prop: str, tier: str, seed: int) -> int:
                   workers=4, timeout=300)
     rep.add_mc("Surrogate optimizer protocol machine", res)
     sur = []
-    for k in range({"quick": 1, "thorough": 6}[tier]):
-        sur.append(surrogate_case(f"surrogate-{k}", rng.randrange(1, 1 << 40),
-                                  5 if tier == "quick" else rng.choice([7, 9, 11]), rng.choice([3, 4])))
+    import signal
+
+    class _Slow(Exception):
+        pass
+
+    fired = {"v": False}
+
+    def _alarm(_s, _f):
+        fired["v"] = True
+        raise _Slow
+    for k in range({"quick": 2, "thorough": 6}[tier]):
+        warm = rng.choice([3, 4])
+        budget = warm + 2 if tier == "quick" else warm + rng.choice([1, 2, 3])
+        # a learned model can make the inner simulations arbitrarily slow (seen: 1 s .. 6 min for the same
+        # setup): every run is guarded by a wall clock and another seed is tried if it is too slow
+        done = False
+        for attempt in range({"quick": 4, "thorough": 6}[tier]):
+            old = signal.signal(signal.SIGALRM, _alarm)
+            fired["v"] = False
+            signal.alarm({"quick": 45, "thorough": 240}[tier])
+            try:
+                sur.append(surrogate_case(f"surrogate-{k}", rng.randrange(1, 1 << 40), budget, warm,
+                                          fancy=(k % 2 == 1)))
+                done = True
+            except Exception as ex_:      # noqa: BLE001 - an interrupted process may raise its own errors while unwinding
+                if not fired["v"]:
+                    # the run itself failed (e.g. moptipy's end-of-run consistency check of the best value)
+                    rep.violations.append(core.Verdict(
+                        f"surrogate-{k}", "surrogate-run-raises:" + type(ex_).__name__,
+                        {"error": str(ex_)[:300], "fancy_logs": k % 2 == 1, "budget": budget, "warmup": warm}))
+                    done = True
+                    sur.append(None)
+                rep.notes.append(f"surrogate run {k} attempt {attempt} abandoned by the wall-clock guard (slow "
+                                 "learned model); not judged, next seed tried")
+            finally:
+                signal.alarm(0)
+                signal.signal(signal.SIGALRM, old)
+            if done:
+                break
+        if not done:
+            continue
+        if sur[-1] is None:
+            sur.pop()
+            continue
         rep.family("surrogate-optimizer-runs", 1, 1)
         rep.nontrivial += 1
         rep.transitions += sur[-1]["n_events"]
